@@ -677,7 +677,13 @@ def cmd_check(pid, tier):
                     return 1
                 if infra:
                     for r in infra[:2]:
-                        log("[infra] shard %s rc=%s\n%s" % (r["shard"], r["rc"], r["out"][-4000:]))
+                        full = os.path.join(WORK, "infra-%s-%s-shard%s.log" % (pid, tier, r["shard"]))
+                        try:
+                            open(full, "w").write(r["out"])
+                        except OSError:
+                            full = "(could not be written)"
+                        head = [l for l in r["out"].splitlines() if re.search(r"panic|--- FAIL|\[rapid\] (failed|panic|flaky)|fatal error|deadlock|timed out", l)][:12]
+                        log("[infra] shard %s rc=%s (full output: %s)\n%s\n...\n%s" % (r["shard"], r["rc"], full, "\n".join(head), r["out"][-1500:]))
                     return 2
                 if merged["evaluations"] < 1:
                     log("[infra] no statistics were produced")
